@@ -14,13 +14,6 @@ inductive Sym where
   | bin (k : Nat) (a b : Sym)
 deriving Repr, DecidableEq, Inhabited
 
-def symInterp : Interp Sym where
-  bin := .bin
-  un := .un
-  const := .const
-  ofLit s := some (.lit s)
-  dflt := .hole
-
 /-- canonical text of a term, identical to the harness' `Display for Sym` -/
 def Sym.show : Sym → String
   | .hole => "H"
@@ -29,6 +22,28 @@ def Sym.show : Sym → String
   | .const k => "K" ++ toString k
   | .un k a => "(U" ++ toString k ++ " " ++ a.show ++ ")"
   | .bin k a b => "(B" ++ toString k ++ " " ++ a.show ++ " " ++ b.show ++ ")"
+
+def symInterp : Interp Sym where
+  bin := .bin
+  un := .un
+  const := .const
+  ofLit s := some (.lit s)
+  dflt := .hole
+  dbg s := match s with
+    | .lit t => t
+    | other => other.show.toList
+
+/-- `Debug` of a value as the harness prints it: a literal prints as its text, a folded value
+    as a re-parseable expression over the operator names of the table. -/
+def Sym.dbgT (t : Table) : Sym → Str
+  | .hole => "HOLE".toList
+  | .lit s => s
+  | .var i => ("VAR" ++ toString i).toList
+  | .const k => ['('] ++ ((t[k]?).map (·.repr)).getD [] ++ [')']
+  | .un k a => ((t[k]?).map (·.repr)).getD [] ++ ['('] ++ a.dbgT t ++ [')']
+  | .bin k a b => ['('] ++ a.dbgT t ++ [' '] ++ ((t[k]?).map (·.repr)).getD [] ++ [' '] ++ b.dbgT t ++ [')']
+
+def symInterpT (t : Table) : Interp Sym := { symInterp with dbg := Sym.dbgT t }
 
 def Sym.size : Sym → Nat
   | .un _ a => a.size + 1
